@@ -1,0 +1,6 @@
+//go:build !verif
+
+package ipfslog
+
+func verifBeforeLock(*IPFSLog, bool, string) {}
+func verifYield(string)                      {}
